@@ -16,7 +16,7 @@ func init() {
 	run.Register(&run.Check{
 		ID:    "C07",
 		Level: "exploration",
-		Cases: func(tier string) int { return tierN(tier, 3000, 24000) },
+		Cases: func(tier string) int { return tierN(tier, 3000, 16000) },
 		Run:   runC07,
 		Rule: "case = one history from the C01 (plain), C04 (GC cycles, with and without preceding flush, time-limited) or C02 (Close/reopen through snapshot and rescan) generators, by case index mod 3 (plus, case index mod 16 == 7, an index-GC churn history: 40-90 rounds of 1-3 writes + Flush on 60-300 byte index files with an index GC cycle every second or third round); after every completed Flush, after every Close and at the end the independent fsck reader evaluates the C07 invariant on the authoritative bucket table (live table while open, snapshot after Close); only fsck problems are verdicts here, among them that the table a rescan of the index log would build resolves to the same record lists as the live table (the files alone determine the state); " +
 			"non-trivial iff >=3 quiescent states were examined AND >=2 keys shared a bucket AND a file rolled over; distinct = hash of (configuration, digests, operations). Crash slice (case index mod 16 == 15): a C03-style history is imaged at every hook point (torn variants included, except torn primary appends = trigger class of known finding C03-F1); fsck is evaluated on each image with the bucket table a rescan would build (log replay - no snapshot exists after a crash); each image is then recovered by OpenStore, used further (puts, flushes, GC cycles) with imaging still on, and fsck is evaluated again on every image of the continuation and on the closed store. Case index mod 16 == 11 alternates between one of C06's scripted collector x caller windows (G7-G11, G24; only the fsck problems found on the closed store count here) and one crash exploration of a legacy-store conversion (as C10, stores without dangling entries). Post-stress states are examined by C05/C06 with the same fsck.",
